@@ -325,7 +325,7 @@ def build_plan(cfg, ch):
     return entries, plan, stop_at
 
 
-def execute(cfg, ch, upto=None):
+def execute(cfg, ch):
     """One execution on fresh objects.  -> dict(finding=Finding|None, rows=[[...]] per call, demanded=bool, ...)."""
     fmt, kwid, mode, box, seed = cfg['fmt'], cfg['kw'], cfg['mode'], cfg.get('box', 'm'), cfg.get('seed', 1)
     base, hinted = base_of(fmt), fmt[0] == 'h'
@@ -336,7 +336,6 @@ def execute(cfg, ch, upto=None):
     try:
         safe = SafeLearner(learner, seed)
         for c, rows in enumerate(plan):
-            if upto is not None and c > upto: break
             call = cfg['calls'][c]
             n = len(rows)
             ref_acts = mk_acts(call['acts'])          # never handed to coba
@@ -596,6 +595,51 @@ def execute_eval(cfg, ch):
     return out
 
 
+def eval_cfg(fmt, kw, mode, acts, seed):
+    ns = [1, 1, 1] if mode == 'not' else [2, 1]
+    return {'fmt': fmt, 'kw': kw, 'mode': mode, 'box': 'm', 'seed': seed, 'calls': [{'acts': acts, 'ctx': 'scalar', 'n': n} for n in ns]}
+
+
+def eval_failure(cfg, mode):
+    """First choice for which the evaluator run of cfg shows failure `mode` although SafeLearner driven directly is fine."""
+    for ch in eval_choices(cfg):
+        f = execute_eval(cfg, ch)['finding']
+        if f is not None and f.mode == mode and run_checked(cfg, ch)['finding'] is None: return ch, f
+    return None
+
+
+_EMIN_CACHE = {}
+
+
+def minimise_eval(cfg, ch, f):
+    ck = (json.dumps(cfg, sort_keys=True), f.mode)
+    if ck in _EMIN_CACHE: return _EMIN_CACHE[ck]
+    changed = True
+    while changed:
+        changed = False
+        fmt, kw, mode, acts, seed = cfg['fmt'], cfg['kw'], cfg['mode'], cfg['calls'][0]['acts'], cfg['seed']
+        cands = [eval_cfg(fmt, kw, m, acts, seed) for m in MODES[:_ord(MODES, mode)]]
+        cands += [eval_cfg(fmt, k, mode, acts, seed) for k in range(kw)]
+        if fmt[0] == 'h': cands.append(eval_cfg(fmt[1:], kw, mode, acts, seed))
+        cands += [eval_cfg(('h' if fmt[0] == 'h' else '') + b, kw, mode, acts, seed) for b in ['A', 'AP', 'PM'][:_ord(['A', 'AP', 'PM'], base_of(fmt))]]
+        cands += [eval_cfg(fmt, kw, mode, a, seed) for a in EVAL_ACTS[:_ord(EVAL_ACTS, acts)]]
+        if seed != 1: cands.append(eval_cfg(fmt, kw, mode, acts, 1))
+        for cand in cands:
+            hit = eval_failure(cand, f.mode)
+            if hit:
+                cfg, (ch, f) = cand, hit
+                changed = True
+                break
+    feats = []
+    if cfg['fmt'] != 'A': feats.append('format %s' % FMT_TEXT[cfg['fmt']])
+    if cfg['mode'] != 'not': feats.append(MODE_TEXT[cfg['mode']] + ' (batches of 2 and 1)')
+    if cfg['kw']: feats.append({1: 'empty kwargs', 2: 'kwargs', 3: 'kwargs with list values'}[cfg['kw']])
+    if cfg['calls'][0]['acts'] != 's': feats.append('actions: %s' % ACT_KIND[cfg['calls'][0]['acts']])
+    key = 'SequentialCB|%s|%s' % (f.mode, ', '.join(feats) or 'any format')
+    _EMIN_CACHE[ck] = (key, cfg, ch, f)
+    return _EMIN_CACHE[ck]
+
+
 def run_agg_pmf(seeds):
     """The draws from a uniform PMF over two actions must not all be the same action (4 seeds x 4 sequential un-batched
     predictions; 4 seeds x one 3-row batch): an answer that ignores the random stream is not 'drawn from the PMF'."""
@@ -625,7 +669,8 @@ class C15(Check):
             '1..2 (thorough 1..3, incl. size == number of actions) x 11 action sets (strings, one int, ints, 0/1, probability-like '
             'floats, one-hot tuples of 2 and 3, lists, sparse dicts with 1 and 2 features, 1-feature dense) x context kind {None, '
             'scalar, list} x SafeLearner seed (PMF formats) x container types; plus two-call histories where the second call offers '
-            'another action set (and another batch size). Inside a single-call case EVERY assignment of named action / stated '
+            'another action set (and another batch size); plus the same answers for 3 interactions through the real SequentialCB (5 action sets, '
+            'un-batched and batches of 2+1) and one aggregate case (uniform PMF draws over 4 seeds). Inside a single-call case EVERY assignment of named action / stated '
             'probability / PMF (one-hots, two mixed) to the rows is executed; two-call cases execute all rotations (thorough, without kwargs: all rotations of the first x every assignment of the second call). Every execution '
             'builds a fresh scripted learner and SafeLearner, runs predict then learn, and compares with the reference reading. An '
             'execution is non-trivial when it is inside the property\'s quantifier (not an un-hinted PMF that could also be read as an '
@@ -637,7 +682,9 @@ class C15(Check):
         'which action a non-degenerate PMF yields is not constrained beyond: offered, non-zero mass, reported with exactly its mass, identical for equal seeds and for batch vs per-row invocation',
         'the number of predict calls the learner sees is not constrained (SafeLearner probes the layout of square batches with an extra call)',
         'batched kwargs are compared per row ({k: v[row]}); the container types of the returned batch are not constrained',
-        'learn is driven directly with predict\'s result and a reward, as SequentialCB does; the evaluator itself is the subject of C06',
+        'learn is driven directly with predict\'s result and a reward, as SequentialCB does; in addition a slice (5 scalar action sets, 3 interactions, un-batched and batches of 2+1) runs through the real SequentialCB(record reward/action/probability), where the recorded action / probability / reward and the arguments of learn are compared; a failure there is reported only if SafeLearner driven directly reads the same answers correctly (otherwise the direct case reports it)',
+        'a column-major un-hinted PMF history whose FIRST batch is 1 row x 1 action ([[1]]: identical in row- and column-major reading, also under a one-row probe) is demanded for that first call only',
+        'sampling: a uniform PMF over two actions must yield both actions somewhere among 16 un-batched and among 12 batched draws (seeds 1,2,3,7); no other distributional demand',
         'all rows of one batch are offered the same action set (fresh objects per row); continuous (empty) action sets are outside the alphabet',
     ]
     TECHNIQUE = ('bounded-exhaustive enumeration of prediction format x kwargs x batch layout x batch size x action type x per-row answers on the '
@@ -647,7 +694,7 @@ class C15(Check):
                   'PMFs to the rows, plus two-call histories with a changed action set, is run on the real SafeLearner and compared with the '
                   'reference reading; exhaustive below the bound, so the smallest mis-read layout is found with certainty.')
     LEVEL_NOTE = 'small-scope hypothesis: <=3 rows, <=3 actions, 2 calls, a fixed set of probabilities / PMFs / kwargs payloads; un-hinted value-ambiguous PMFs are excluded as the property does'
-    MIN_NONTRIVIAL = {'quick': 20000, 'thorough': 200000}
+    MIN_NONTRIVIAL = {'quick': 50000, 'thorough': 500000}
     CASE_TIMEOUT = 60
 
     # -------------------------------------------------------------- enumeration
@@ -664,8 +711,7 @@ class C15(Check):
                 for fmt in FMTS:
                     for kw in ((0, 2) if quick else range(4)):
                         for seed in seeds(fmt)[:2]:
-                            calls = [{'acts': acts, 'ctx': 'scalar', 'n': 1}] * 3 if mode == 'not' else [{'acts': acts, 'ctx': 'scalar', 'n': 2}, {'acts': acts, 'ctx': 'scalar', 'n': 1}]
-                            yield {'via': 'eval', 'fmt': fmt, 'kw': kw, 'mode': mode, 'box': 'm', 'seed': seed, 'calls': [dict(c) for c in calls]}
+                            yield dict(eval_cfg(fmt, kw, mode, acts, seed), via='eval')
         # single calls
         for mode, n in layouts:
             for acts in ACT_NAMES:
@@ -743,7 +789,8 @@ class C15(Check):
                 continue
             if run_checked(cfg, ch)['finding'] is not None:          # SafeLearner itself fails on these answers: reported by the direct cases
                 acc.count('evaluator_failures_explained_by_direct_failure'); continue
-            acc.violation('SequentialCB|%s|format %s, %s' % (f.mode, FMT_TEXT[cfg['fmt']], MODE_TEXT[cfg['mode']]), f.what, dict(cfg, via='eval', ch=ch))
+            key, mcfg, mch, mf = minimise_eval(cfg, ch, f)
+            acc.violation(key, mf.what, dict(mcfg, via='eval', ch=mch))
 
     def post(self, acc, tier):
         """Parent side: every provisional (coarse) class is minimised to its smallest failing configuration, which gives
